@@ -86,8 +86,11 @@ Spawn(p, c) ==
     /\ exp' = [exp EXCEPT ![c] = IF Kind = "task" THEN <<Value(p)>> ELSE <<Default>>]
     /\ UNCHANGED stack
 
-(* histogram arithmetic with an array-like operand ("array") or producing a negative content ("negative"): *)
+(* histogram arithmetic with an array-like operand (h + array, array + h, zeros + h, h += array, h * array, *)
+(* array * h, h - array, h / array, list + h) or producing a negative content (h * (-1), a - b with b > a): *)
 (* accepted iff free arithmetics is on in e's context; `accepted` is the expected outcome.                 *)
+ArithKinds == {"array", "rarray", "rzeros", "iadd_array", "mul_array", "rmul_array", "sub_array", "div_array", "rlist",
+               "negative", "sub_below_zero"}
 Arith(e, what, accepted) ==
     /\ Live /\ Running(e)
     /\ accepted = Value(e)
@@ -104,7 +107,7 @@ Next ==
     \/ \E e \in Execs : Exit(e) \/ Finish(e)
     \/ \E e \in Execs, k \in 1..MaxNest, kind \in {"exc", "base"} : Raise(e, k, kind)
     \/ \E p, c \in Execs : Spawn(p, c)
-    \/ \E e \in Execs, what \in {"array", "negative"}, a \in BOOLEAN : Arith(e, what, a)
+    \/ \E e \in Execs, what \in ArithKinds, a \in BOOLEAN : Arith(e, what, a)
 
 Spec == Init /\ [][Next]_vars
 
